@@ -25,9 +25,10 @@ func init() {
 			runC13IfaceCompare(c)
 			runFieldIdentity(c, "C13-FIELDIDX")
 			runSrcSink(c, "C13-NILTYPE")
+			importRules(c, "C04", runC04, "C13-EXPORTED", "the struct walker judges and descends only through fields it has found exported on that very path (rule C04-GUARD): a rule function or a nested walk applied to a value obtained from an unexported field panics in reflect (Interface, Set)", 2, ruleIn("C04-GUARD"))
 			runErrPair(c, "C13-ERRPAIR")
 			runInitGlobal(c, "C13-INITGLOBAL")
-			base(c, "STATE", "ALIAS")
+			base(c, "STATE", "ALIAS", "LRU")
 		},
 	})
 }
